@@ -166,9 +166,9 @@ def gen_world(rw, kind, K=None, heavy=False):
         opts = [None, 1, 2, 3, 5]
         if K:
             opts += [max(1, K - 1), K, K + 1]
-        return {"world": kind, "chunk": rw.choice(opts)}
+        return {"world": kind, "chunk": rw.choice(opts), "sched": rw.randrange(2 ** 31)}
     if kind == "real-numba":
-        return {"world": kind, "threads": rw.choice([1, 2, 3, 5, 8, 16]), "chunksize": rw.choice([0, 0, 1, 2, 3, 7])}
+        return {"world": kind, "threads": rw.choice([1, 2, 3, 5, 8, 16]), "chunksize": rw.choice([0, 0, 1, 2, 3, 7]), "sched": rw.randrange(2 ** 31)}
     raise ValueError(kind)
 
 
@@ -224,12 +224,21 @@ def run_kernel(wspec, mode, order, x, y, starts, L, w, omega):
 def analysis_world(wspec, ctx=None):
     """Context in which SpectrumAnalyzer(backend=backend_of(wspec)) computes in the given world."""
     world = wspec["world"]
-    if world == "real-numba":
-        with real_numba(wspec.get("threads"), wspec.get("chunksize")):
-            yield None
-    elif world == "numpy":
-        with numpy_knob(wspec.get("chunk")):
-            yield None
+    if world in ("real-numba", "numpy"):
+        from . import parfor
+
+        ctx = ctx or make_ctx(wspec, serial=wspec.get("serial", False))   # drives the simulated Python thread pool
+        old = parfor.current()
+        parfor.set_context(ctx)
+        try:
+            if world == "real-numba":
+                with real_numba(wspec.get("threads"), wspec.get("chunksize")):
+                    yield ctx
+            else:
+                with numpy_knob(wspec.get("chunk")):
+                    yield ctx
+        finally:
+            parfor.set_context(old)
     elif world == "sim-numba":
         ctx = ctx or make_ctx(wspec, serial=wspec.get("serial", False))
         with sim_numba(ctx):
@@ -264,5 +273,6 @@ def absorb(out, ctx):
     for k, v in st.policies.items():
         out.count("policy_" + k, v)
     out.observe("sched", st.decisions.hexdigest()[:16], st.steps)
-    out.extra.setdefault("schedule_digests", []).append(st.decisions.hexdigest()[:12])
+    if st.ndecisions:
+        out.extra.setdefault("schedule_digests", []).append(st.decisions.hexdigest()[:12])
     out.extra["commit_orders"] = out.extra.get("commit_orders", 0) + len(ctx.commit_orders)
